@@ -200,7 +200,10 @@ def cargo_build(area):
 
 MAX_FATAL = 12
 MAX_TIMEOUTS_TOTAL = 8   # hangs are expensive (stall_s each): after this many in one check, stop exploring
-_timeouts_seen = [0]    # after this many crashes/hangs in one stream the rest of the stream is not run
+# hang budget per SIDE (implementation / model): after this many hangs the rest of that side's streams is not run.
+# The sides must not share the counter: a hanging implementation would otherwise silence the model stream, and a
+# case whose model observation is missing would be dropped instead of being judged by the predicate.
+_timeouts_seen = {"impl": 0, "model": 0}
 
 
 def _run_stream(binary, lines, tag, stall_s=10.0):
@@ -213,7 +216,8 @@ def _run_stream(binary, lines, tag, stall_s=10.0):
     n = len(lines)
     fatal = 0
     while start < n:
-        if fatal >= MAX_FATAL or _timeouts_seen[0] >= MAX_TIMEOUTS_TOTAL:
+        side = "model" if tag.startswith("model") else "impl"
+        if fatal >= MAX_FATAL or _timeouts_seen[side] >= MAX_TIMEOUTS_TOTAL:
             obs.extend(["SKIPPED-AFTER-FATAL"] * (n - start))
             break
         chunk = lines[start:]
@@ -244,7 +248,7 @@ def _run_stream(binary, lines, tag, stall_s=10.0):
                     p.kill()
                     p.wait()
                     status = "TIMEOUT"
-                    _timeouts_seen[0] += 1
+                    _timeouts_seen[side] += 1
                     break
         got = open(outp, encoding="utf-8", errors="replace").read().split("\n")
         if got and got[-1] == "":
@@ -432,9 +436,11 @@ def run_check(P, tier, seed, replay=None):
         mo = run_model(P.AREA, cases) if ok_exe else [None] * len(cases)
         out = []
         for c, i, m in zip(cases, io, mo):
-            if i == "SKIPPED-AFTER-FATAL" or m == "SKIPPED-AFTER-FATAL":
+            if i == "SKIPPED-AFTER-FATAL":
                 out.append((c, i, m, None, False))
                 continue
+            if m == "SKIPPED-AFTER-FATAL":
+                m = None          # no model observation for this case: the predicate alone judges it
             why = P.predicate(c, i)
             if not why and m is not None:
                 # optional second predicate that may also look at what the model side printed (e.g. the
